@@ -57,7 +57,12 @@ uint64_t __vf_live_allocs(void){ return (uint64_t)vf_live; }
 void __vf_memcpy(void *d, const void *s, size_t n){ if (n) memcpy(d, s, n); }
 void __vf_memmove(void *d, const void *s, size_t n){ if (n) memmove(d, s, n); }
 void __vf_memset(void *d, int c, size_t n){ if (n) memset(d, c, n); }
+#ifdef VF_NEW_HOOK
+void __vf_new_hook(void *p);
+void *_Znwm(uint64_t n){ void *p = __vf_malloc(n); __vf_new_hook(p); return p; }
+#else
 void *_Znwm(uint64_t n){ return __vf_malloc(n); }
+#endif
 void *_Znam(uint64_t n){ return __vf_malloc(n); }
 void _ZdlPv(void *p){ __vf_free(p); }
 void _ZdaPv(void *p){ __vf_free(p); }
